@@ -741,6 +741,8 @@ def flatten(self, *dims, **kwargs):
     # dimension to insert the new axis at
     if insert is None: 
         insert = ii  # by default, do not reshape
+    if insert < 0:
+        insert = max(insert + self.ndim - n, 0) # counted from the end of the other dimensions, as list.insert does
     insert = min(insert, self.ndim - n) # the group cannot start beyond that position
 
     # If dimensions do not follow each other, transpose first
